@@ -56,7 +56,9 @@ func runC03(r *simkit.Run) {
 			r.FailNoAbort("honest-message-rejected", "own-validator/"+p.Topic, "message #%d published by %s on %s was rejected by its own validator", p.ID, nd.Name, p.Topic)
 		}
 	}
+	received := map[string]int{}
 	w.net.OnVerdict = func(p *simnet.Published, rcv *simnet.Node, res pubsub.ValidationResult) {
+		received[rcv.Name]++
 		if !p.Injected && res != pubsub.ValidationAccept {
 			r.FailNoAbort("honest-message-rejected", "peer-validator/"+p.Topic, "message #%d published by honest %s on %s was rejected by %s", p.ID, p.From, p.Topic, rcv.Name)
 		}
@@ -107,14 +109,30 @@ func runC03(r *simkit.Run) {
 	}
 	// convergence: "every keyper that receives their messages". A keyper that is the only
 	// triggered one receives no share message at all (own messages are not handed to the
-	// handlers), so it is outside the statement; everybody else must converge.
+	// handlers), so it is outside the statement; the same holds for a keyper all of whose
+	// incoming share messages were lost (possible within the loss budget only for t=1, where
+	// the own share alone would reach the threshold: keys are only built while handling a
+	// received message). Everybody else must converge.
 	soleTriggered := -1
 	if m == 1 {
 		soleTriggered = perm[0]
 	}
+	triggeredReceived := false
+	for _, i := range perm[:m] {
+		if received[w.nodes[i].name] > 0 {
+			triggeredReceived = true
+		}
+	}
 	for ni, nd := range w.nodes {
 		if ni == soleTriggered {
 			r.Probe("sole-triggered-exempt")
+			continue
+		}
+		if received[nd.name] == 0 {
+			if t != 1 {
+				r.Fail("harness-loss-budget", "convergence", "node %s received no message at all although t=%d (loss budget exceeded by the harness)", nd.name, t)
+			}
+			r.Probe("received-nothing-exempt")
 			continue
 		}
 		keys := nd.storedKeys()
@@ -135,7 +153,7 @@ func runC03(r *simkit.Run) {
 			nkeys++
 		}
 	}
-	if nkeys == 0 && m > 1 {
+	if nkeys == 0 && m > 1 && triggeredReceived {
 		r.Fail("no-keys-message", "convergence", "no keys message was emitted although %d >= t=%d keypers were triggered (flavour %s)", m, t, w.fl)
 	}
 	r.Probe("converged-runs")
